@@ -779,7 +779,7 @@ pub fn wide(args: &[String]) -> i32 {
     let (opslice, opof) = (arg_u64(args, "--opslice", 0) as usize, arg_u64(args, "--opof", 1) as usize);
     let mut onext = 0usize;
     while onext < ncases && opof != 0 {
-        let exe = std::env::current_exe().unwrap();
+        let exe = crate::util::self_exe();
         let out = std::process::Command::new(exe).args(["stwide-child", "--opmatrix", "1", "--from", &onext.to_string()]).output().unwrap();
         let text = String::from_utf8_lossy(&out.stdout).to_string();
         let mut began: Option<usize> = None;
@@ -805,7 +805,7 @@ pub fn wide(args: &[String]) -> i32 {
         } else if text.lines().count() == 0 { break; }
     }
     while next < runs {
-        let exe = std::env::current_exe().unwrap();
+        let exe = crate::util::self_exe();
         let out = std::process::Command::new(exe).args(["stwide-child", "--seed", &seed.to_string(), "--from", &next.to_string(), "--to", &runs.to_string(), "--cur", &cur]).output().unwrap();
         let text = String::from_utf8_lossy(&out.stdout).to_string();
         let mut began: Option<usize> = None;
